@@ -544,7 +544,11 @@ func runC18(c *ctx) {
 				lo = so.Limit.Limits
 				events = append(events, obj{"e": "register", "obs": obj{"limit": limitJSON(lo)}})
 			}
-			if u == installAt && lo != nil {
+			if u == installAt && lo != nil && lo.UpdateControl == nil {
+				// the server hands its updater over only through this function (kitex skips the hand-over when it is nil):
+				// without it no change can ever reach the running server
+				events = append(events, obj{"e": "install", "obs": obj{"limit": limitJSON(lo), "noUpdateControl": true}})
+			} else if u == installAt && lo != nil {
 				lo.UpdateControl(upd)
 				events = append(events, obj{"e": "install", "obs": obj{"limit": limitJSON(lo), "pushed": append([]interface{}{}, upd.got...)}})
 			}
